@@ -662,7 +662,7 @@ func plan() []phase {
 			{cfg: bare, depth: 3},
 			{cfg: afterSettings(2), depth: 4},
 			{cfg: afterSettings(1), depth: 4},
-			{cfg: core(2), depth: 7, prune: true},
+			{cfg: core(2), depth: 6, prune: true},
 			{cfg: core(1), depth: 7, prune: true},
 		}
 	}
